@@ -196,10 +196,10 @@ HEADER = ["From Coq Require Import List NArith ZArith.", "From Pcfg Require Impo
 def run(ctx):
     C = consts()
     sc = common.scratch()
-    nmodels = ctx.scale(48, 500)
+    nmodels = ctx.scale(48, 300)
     py_cap = ctx.scale(5000, 20000)
-    coq_cap = ctx.scale(150, 400)
-    model_cap = ctx.scale(900, 3000)
+    coq_cap = ctx.scale(150, 250)
+    model_cap = ctx.scale(900, 1500)
     dist = Counter()
     vio, cases, samples = [], [], []
     seen, nontrivial, evaluations = set(), 0, 0
@@ -211,7 +211,7 @@ def run(ctx):
             # all-10 tables are a corner, not the bulk
             force = {"ip_mode": ctx.rng.choice(["low", "low", "mid", "wide", "wide", "hi", "zero", "two"]),
                      "ln_mode": ctx.rng.choice(["low", "low", "mid", "wide", "zero", "two", "hi"])}
-        om = omen_gen.gen_model(ctx.rng, force, max_strings=ctx.scale(6000, 20000))
+        om = omen_gen.gen_model(ctx.rng, force, max_strings=ctx.scale(6000, 8000))
         key = omen_gen.model_key(om)
         case, v, info = explore_model(ctx, om, sc, C, py_cap, dist)
         vio += v
